@@ -42,6 +42,7 @@ Deviations from DESIGN C11, each forced by what the unchanged tree showed:
 """
 from __future__ import annotations
 
+import collections
 import math
 
 import numpy as np
@@ -338,7 +339,8 @@ _START_CONSEQUENCES = ("row-not-at-branch-minimum", "table-stops-short-of-reques
                        "rows-beyond-spinodal", "interpolated-minimum-off-branch",
                        "interpolated-free-energy-off", "row-hessian-not-positive-definite",
                        "spinodal-end-not-flagged", "end-flagged-although-range-covered",
-                       "reminimised-row-appended-without-spinodal-recheck")
+                       "reminimised-row-appended-without-spinodal-recheck",
+                       "consecutive-rows-jump")
 
 
 def _attribute_start(viol, start_bad, data0, phase, res):
@@ -462,6 +464,11 @@ def judge_table(pot, phase, fe, req, rec, obs, viol, mon):
         allsteps = {t for (_, t, _) in rec.steps} | {req["T0"]}
         rows = set(X.tolist())
         missing = sorted(must - rows)
+        # a step within 1e-2 dT of a kept abscissa may have been merged with it (the tracer
+        # does not keep two nearly coincident rows, which would make the spline derivatives
+        # amplify rounding noise; C10's subject) -- the table still covers that temperature
+        merge = 1e-2 * req["dT"]
+        missing = [t for t in missing if np.min(np.abs(X - t)) > merge]
         alien = sorted(rows - allsteps)
         res["rows_missing"] = len(missing)
         if missing:
@@ -662,6 +669,8 @@ def judge_table(pot, phase, fe, req, rec, obs, viol, mon):
     jn = np.linalg.norm(dphi, axis=-1)
     jumps = []
     for k in np.nonzero(jn > 0.02 * fref)[0]:
+        if (soft(khi) and X[k + 1] > thi - soft_hi) or (soft(klo) and X[k] < tlo + soft_lo):
+            continue      # sqrt-type variation of the branch next to a soft end: value level only
         dn, lab = _nearest_other(pot, phase, bq[k + 1], X[k + 1], bq[k + 1], min_sep)
         if math.isfinite(dn) and jn[k] > 0.5 * dn:
             jumps.append((int(k), lab))
@@ -1024,6 +1033,8 @@ def summarize(results, tier):
     def col(name, sub="res"):
         out = []
         for r in results:
+            if r.get("viol"):
+                continue          # residual statistics of the non-violating population only
             o = r.get("obs") or {}
             v = (o.get(sub) or {}).get(name) if sub else o.get(name)
             if isinstance(v, (int, float)):
@@ -1041,7 +1052,7 @@ def summarize(results, tier):
                                    "interp_V_over_tol_max", "V_mismatch_max",
                                    "spline_model_share", "interp_V_rel_max")}}
     tc = [abs(r["obs"]["Tc_err"]) / r["obs"]["Tc_tol"] for r in results
-          if isinstance((r.get("obs") or {}).get("Tc_err"), (int, float))]
+          if isinstance((r.get("obs") or {}).get("Tc_err"), (int, float)) and not r.get("viol")]
     ext["residuals_over_tolerance"]["Tc_err_over_tol"] = stats(tc)
     hops = [r["obs"]["minimiser_hop"] for r in results if "minimiser_hop" in (r.get("obs") or {})]
     ext["minimiser_hops_seen"] = len(hops)
@@ -1052,4 +1063,24 @@ def summarize(results, tier):
         if o.get("end_hi") == "past" and "table_range" in o and not r["viol"]:
             over.append((o["table_range"][1] - o["exists"][1]) / o["exists"][1])
     ext["overshoot_past_upper_spinodal_rel"] = stats(over)
+    # the same overshoot in units of rTol*T (what the slack K*max(rTol,1e-6)*T is set against),
+    # the tracer's own gradient measure on the rows, and the Hessian margin
+    ext["overshoot_hi_over_rTolT"] = stats([v for v in col("overshoot_hi_over_rTolT") if v > 0])
+    ext["row_grad_over_T0cubed_over_rTol"] = stats(col("row_grad_over_T0cubed_over_rTol_max"))
+    ext["min_hess_eig_over_tol"] = stats([-v for v in col("min_hess_eig_over_tol")])
+    # soft ends: what the code did when the request reached one (never judged)
+    soft = collections.Counter()
+    for r in results:
+        o = r.get("obs") or {}
+        for side in ("lo", "hi"):
+            sft = o.get(f"soft_{side}")
+            if sft:
+                soft[f"{sft['kind']}:{'traced-through' if sft['reached'] else 'stopped'}:"
+                     f"flag={sft['flag']}"] += 1
+    ext["soft_end_outcomes(not judged)"] = dict(soft)
+    ext["unconverged_minimisations_without_consequence"] = int(sum(
+        1 for r in results
+        if ((r.get("obs") or {}).get("res") or {}).get("start_gradient_unresolved_without_consequence")))
+    mech = collections.Counter(v["mech"] for r in results for v in r["viol"])
+    ext["violating_observations_by_mechanism"] = dict(mech)
     return ext
